@@ -151,7 +151,7 @@ func (r StructReplacer) Replace(d data.Data, cl Changelog, pos token.Pos) (refle
 	// position, fields behind a token get that token's.
 	for _, f := range r.Fields {
 		if pr, ok := f.(PosReplacer); ok && pr.Pos.IsValid() {
-			if p := lookupPosMatch(pr.Fset, d, pr.Pos); p > pos {
+			if p := lookupPosMatch(pr.Fset, d, pr.Pos); p.IsValid() {
 				pos = p
 			}
 			break
@@ -167,7 +167,7 @@ func (r StructReplacer) Replace(d data.Data, cl Changelog, pos token.Pos) (refle
 		if err := set(v.Field(i), fv); err != nil {
 			return reflect.Value{}, err
 		}
-		if p, ok := fv.Interface().(token.Pos); ok && p > pos {
+		if p, ok := fv.Interface().(token.Pos); ok && p.IsValid() {
 			pos = p
 		}
 	}
